@@ -1502,6 +1502,64 @@ theorem itick_ok {tc : TCfg} (R : Repaired tc.base) {top : Top} (T : TopInv top)
   · rw [if_pos (not_true_of hh)]
     exact ⟨top, "skip", rfl, T.pre⟩
 
+/-! ### `tickit_mockterm_resize` -/
+
+/-- `on_term_resize` of the root window. -/
+theorem onTermResize_ok {gh : Ghost} {top : Top} (F : FInv gh top) (hr : rootAlive top.st = true) (lines cols : Int) :
+    ∃ top', onTermResize top lines cols = .ok top' ∧ FInv gh top' ∧ Rest top top' := by
+  obtain ⟨r, hrl⟩ := rootAlive_live hr
+  unfold onTermResize
+  simp only [getW, get_live hrl, bind_ok]
+  obtain ⟨t', hq, inv', hrel, hrc⟩ := setGeomT_ok F.inv.tinv hrl ⟨r.rect.top, r.rect.left, lines, cols⟩
+  simp only [hq, bind_ok]
+  obtain ⟨r', hrl', _⟩ := hrel.live hrl
+  have hex : ∀ e, exposeWalk t' (chainFuel t') 0 e = .ok () := fun e => exposeWalk_ok inv' 0 r' hrl' _ (chainFuel_gt hrl') e
+  have F' : FInv gh { top with st := { top.st with tree := t' } } := by
+    refine ⟨F.inv.of_rel' inv' hrel hrc, F.keep.of_wx rfl, F.ids, ?_⟩
+    intro b hb hna
+    exact rootAlive_iff.2 ⟨r', hrl'⟩
+  refine ⟨{ top with st := { top.st with tree := t' } }, ?_, F', by rest_rfl⟩
+  split <;> split <;> simp only [hex, bind_ok, pure_ok]
+
+theorem mresize_ok {tc : TCfg} {top : Top} (T : TopInv top) (lines cols : Int) :
+    ∃ top1 r, xstepCore tc top (.mresize lines cols) = .ok (top1, r) ∧ TopPre top1 := by
+  have e : xstepCore tc top (.mresize lines cols) =
+      (if !top.mock || !heldT top.st then pure (top, "skip")
+       else do
+        let top := { top with screen := top.screen.map (fun scr => (mockResize scr lines cols).compact) }
+        let top ← termSetSize top lines cols
+        pure (top, s!"ok size={lines}x{cols}")) := rfl
+  rw [e]
+  by_cases hc : (!top.mock || !heldT top.st) = true
+  · rw [if_pos hc]
+    exact ⟨top, "skip", rfl, T.pre⟩
+  · rw [if_neg hc]
+    have hh : heldT top.st = true := by
+      cases h : heldT top.st
+      · rw [h] at hc; simp at hc
+      · rfl
+    have F0 : FInv top.ghost { top with screen := top.screen.map (fun scr => (mockResize scr lines cols).compact) } :=
+      T.f.of_fields rfl rfl
+    have hts : ∃ t1, termSetSize { top with screen := top.screen.map (fun scr => (mockResize scr lines cols).compact) } lines cols = .ok t1 ∧
+        FInv top.ghost t1 ∧ Rest top t1 := by
+      unfold termSetSize
+      split
+      · exact ⟨_, rfl, F0, by rest_rfl⟩
+      · obtain ⟨t1, h1, F1, R1⟩ := withTermRef_ok (top := { top with screen := top.screen.map (fun scr => (mockResize scr lines cols).compact), size := (lines, cols) })
+          (F0.of_fields rfl rfl) (heldT_live hh)
+          (f := fun top => if rootAlive top.st && top.tbinds.any (fun b => b.kind = .rootResize) then onTermResize top lines cols else pure top)
+          (fun t Ft => by
+            show ∃ t', (if (rootAlive t.st && t.tbinds.any (fun b => b.kind = .rootResize)) = true then onTermResize t lines cols else pure t) = .ok t' ∧ _
+            split
+            · rename_i hcnd
+              rw [Bool.and_eq_true] at hcnd
+              exact onTermResize_ok Ft hcnd.1 lines cols
+            · exact ⟨t, rfl, Ft, Rest.refl t⟩)
+        exact ⟨t1, h1, F1, Rest.trans (by rest_rfl) R1⟩
+    obtain ⟨t1, h1, F1, R1⟩ := hts
+    simp only [h1, bind_ok, pure_ok]
+    exact ⟨t1, _, rfl, T.pre_of_rest R1 F1⟩
+
 /-! ## one operation, any history -/
 
 /-- The repairs of this layer the theorems need. -/
@@ -1515,11 +1573,10 @@ structure TRepaired (tc : TCfg) : Prop where
     window handlers that free nothing), key and mouse events, the terminal's bindings (handlers with any actions:
     `tickit_window_unref` of any window, `tickit_term_unref` included) and input entry points, the clock, the toplevel
     instance with its watches and `tickit_tick`, the further terminals and the SIGWINCH observers,
-    `tickit_term_set_input_fd`, printing on the mock terminal.  Not covered: `tickit_mockterm_resize`, and what the
-    lower layers' theorems leave out (`focus`, drawing into a render buffer, `mdisp`); `end` has its own theorem. -/
+    `tickit_term_set_input_fd`, printing on and resizing the mock terminal.  Not covered: what the lower layers'
+    theorems leave out (`focus`, drawing into a render buffer, `mdisp`); `end` has its own theorem. -/
 def XOp.covered : XOp → Prop
   | .base op => op.topOk ∨ op = .key ∨ (∃ m, op = .mouse m) ∨ (∃ l c m, op = .newTerm l c m)
-  | .mresize .. => False
   | _ => True
 
 theorem xstepCore_ok {tc : TCfg} (R : TRepaired tc) {top : Top} (T : TopInv top) (op : XOp) (h : op.covered) :
@@ -1547,7 +1604,7 @@ theorem xstepCore_ok {tc : TCfg} (R : TRepaired tc) {top : Top} (T : TopInv top)
   | itimer ms acts => exact itimer_ok T ms acts
   | icancel k => exact icancel_ok T k
   | itick toks => exact itick_ok R.base T toks
-  | mresize lines cols => exact h.elim
+  | mresize lines cols => exact mresize_ok T lines cols
   | xnew =>
     obtain ⟨top1, r, hs, ns, ok⟩ := xstepCore_sw R.sigwinch T.sw .xnew rfl
     exact ⟨top1, r, hs, ⟨by rw [ghost_of_inst (InstRel.of_eq ns.inst)]; exact T.f.of_fields ns.st ns.tbinds, ok.pre,
